@@ -6,9 +6,9 @@ from fractions import Fraction
 
 from ..model import AnalysisError
 from ..symex import Obj
-from ..terms import T, sym, t_mul, t_add, t_pow, is_num, canon, show, subterms
+from ..terms import T, sym, t_mul, t_add, is_num, subterms
 from .c13_model import (World, arg, NAMES, E, lin, tensor, norm, value, same_value, raw, raw_name, substitute, linear_form,
-                        permutation_map, as_self, fmt, frac, indices_of)
+                        permutation_map, as_self, fmt, frac)
 
 EXPLANATION = (
     "Every function is evaluated by the abstract evaluator (sa.symex) over a model of the container algebra "
@@ -309,19 +309,12 @@ def r13e(ctx):
                    key=f"init {name} value")
     # -- factor_and_remove_number: value / number
     w = World(IDX)
-    sx = w.make(ctx, "factor_and_remove_number", opaque=())
+    sx = w.make(ctx, "factor_and_remove_number")
 
     def args():
         st["e"] = w.expr(lin(dict(i=Fraction(3, 2), a=Fraction(-1, 2))))
         return dict(expr=st["e"], number=Fraction(-1, 2))
-    VOC = "factor_and_remove_number"
-    from .c13_model import VOCAB
-    VOCAB.discard(VOC)
-    try:
-        outs = sx.run(far, args)
-    finally:
-        VOCAB.add(VOC)
-    for o in returned(ctx, rule, far, outs, "factor_and_remove_number", "factor number"):
+    for o in returned(ctx, rule, far, sx.run(far, args), "factor_and_remove_number", "factor number"):
         got = o.value
         if isinstance(got, Obj) and "_expr" in got.attrs and "$value" in got.attrs:
             got = got.attrs["_expr"]
